@@ -207,7 +207,16 @@ func runPerm(t *testing.T, rc *RunCtx) {
 			o.Entries[0].ByKey, o.Entries[0].KeyPad = byKey, keyPad
 			served = o.Exec(inst).OK(0)
 		case "Access account":
-			res, err := inst.ListerH.ListAccounts(ctx, &pb.ListAccountsRequest{Paths: []string{a.Wallet + "/" + regexp.QuoteMeta(a.Name)}})
+			paths := []string{a.Wallet + "/" + regexp.QuoteMeta(a.Name)}
+			if ch.Pick(2, 0) == 1 {
+				// The same request also names the like-named account of another wallet first: what is decided for
+				// that one must not be taken for this one.
+				other := permWallets[ch.Pick(len(permWallets), 0)].Name
+				if other != a.Wallet {
+					paths = append([]string{other + "/" + regexp.QuoteMeta(a.Name)}, paths...)
+				}
+			}
+			res, err := inst.ListerH.ListAccounts(ctx, &pb.ListAccountsRequest{Paths: paths})
 			if err == nil && res != nil {
 				for _, x := range res.GetAccounts() {
 					if x.GetName() == a.Path {
@@ -290,7 +299,9 @@ func runList(t *testing.T, rc *RunCtx) {
 		all = append(all, acct{a.Wallet, a.Name, a.PubKey})
 	}
 	pathPool := []string{"Wallet1", "Wallet2", "Wallet10", "xWallet2", "wallet3", "Wallet1/acc1", "Wallet1/acc.*", "Wallet1/acc1|Acc2", "Wallet1/.*1", "Wallet2/val-.*", "Wallet1/made.*",
-		"Nowhere", "Nowhere/acc1", "", "/acc1", "Empty", "Empty/made.*", "Wallet1/[unclosed", "wallet1", "Wallet1/ACC1", "Wallet1/^acc1$", "Dist"}
+		"Nowhere", "Nowhere/acc1", "", "/acc1", "Empty", "Empty/made.*",
+		// a literal start followed at once by an optional or repeatable character
+		"Wallet1/acc10?", "Wallet1/acc1?0?", "Wallet1/accx*1", "Wallet1/acc1{0,2}", "Wallet1/Ac*c2", "Wallet1/made1?[0-9]", "Wallet2/val-?1?.*", "Wallet1/x?acc1", "Wallet1/[unclosed", "wallet1", "Wallet1/ACC1", "Wallet1/^acc1$", "Dist"}
 	rounds := 4 + ch.Pick(10, 0)
 	var desc []string
 	// Creations and listings concentrate on one wallet, so that create / list / create / list sequences on the
